@@ -105,6 +105,20 @@ def run(ctx):
         cases.append(("unquoted", "[*]." + ident + "|[0]", E.dump([{ident: E.Num("u7")}]), "u7"))
         cases.append(("unquoted", "[?" + ident + " == `7`] | length(@)", E.dump([{ident: E.Num("u7")}, {ident + "x": E.Num("u7")}]), "u1"))
         cases.append(("unquoted", "{" + ident + ": " + ident + "}." + ident, E.dump({ident: E.Num("u7")}), "u7"))
+    # a quoted identifier is a NAME, whatever it looks like: it selects the member with exactly that name and nothing else
+    for key, doc, want in [("a.b", {"a": {"b": 2}}, None), ("a.b", {"a.b": 7, "a": {"b": 2}}, 7), ("a[0]", {"a": [5]}, None), ("a | b", {"a": {"b": 1}}, None),
+                           ("*", {"x": 1}, None), ("@", {"x": 1}, None), (" a", {"a": 1}, None), ("a ", {"a": 1}, None), ("A", {"a": 1}, None),
+                           ("a", {"A": 1}, None), ("e\u0301", {"\u00e9": 1}, None), ("\u00e9", {"e\u0301": 1}, None), ("a.b.c", {"a": {"b": {"c": 1}}}, None),
+                           ("[0]", [1], None), ("length(@)", {"x": 1}, None), ("`1`", {"x": 1}, None), ("'a'", {"a": 1}, None), ("a", {"a": None, "b": 1}, None)]:
+        d = G.json_to_enc(doc)
+        w = "n" if want is None else G.json_to_enc(want)
+        cases.append(("quoted-name", json.dumps(key), d, w))
+        cases.append(("quoted-name", "@." + json.dumps(key, ensure_ascii=True), d, w))
+    # number spellings inside literals: JSON's own grammar decides (`-0` is the float -0.0; `+5`, `007`, `-01`, `1.`, `.5` are not JSON)
+    for text, want in [("-0", G.f64_bits(-0.0)), ("0", "u0"), ("-0.0", G.f64_bits(-0.0)), (" 5 ", "u5"), ("5", "u5"), ("-5", "i-5"), ("1e0", G.f64_bits(1.0)),
+                       ("+5", None), ("007", None), ("-01", None), ("1.", None), (".5", None), ("\u00a05", None), ("5\ufeff", None), ("0x5", None), ("1_0", None),
+                       ("-", None), ("--5", None), ("5 5", None), ("Infinity", None), ("NaN", None), ("1e", None)]:
+        cases.append(("literal-number", "`" + text + "`", "n", want))
     for bad in ["'abc", "'a\\'", "`1", "`{`", "`[1,]`", "`tru`", '"abc', '"\\ud800"', '"\\x"', '"a\nb"', '"\x01"', "`\"\\ud800\"`", "``", "`1 2`",
                 '"a"(@)', "a.'b'"]:
         cases.append(("malformed", bad, "{ }", None))
